@@ -322,3 +322,233 @@ func ipTo16(ex *Exec, st *State, fr *Frame, c ssa.Instruction, fn *ssa.Function,
 	}
 	return outs
 }
+
+// ---------- encoding/binary.Read / Write on *bytes.Buffer (assumed contracts keyed by static type) ----------
+
+func init() {
+	extModels["encoding/binary.Read"] = binaryRead
+	extModels["encoding/binary.Write"] = binaryWrite
+	extModels["(*bytes.Buffer).Read"] = bufRead
+}
+
+func bufArg(ex *Exec, st *State, v Value) (VPtr, types.Type) {
+	iv, ok := v.(VIface)
+	if !ok || iv.Dyn == nil {
+		oos("binary.Read/Write on a reader/writer of unknown dynamic type")
+	}
+	pt, ok := iv.Dyn.Underlying().(*types.Pointer)
+	if !ok || !isBytesBuffer(pt.Elem()) {
+		oos("binary.Read/Write on %s (only *bytes.Buffer is modelled)", typeStr(iv.Dyn))
+	}
+	p, ok := iv.Val.(VPtr)
+	if !ok || p.Obj <= 0 {
+		oos("binary.Read/Write on nil buffer")
+	}
+	return p, pt.Elem()
+}
+
+func checkBigEndian(v Value) {
+	iv, ok := v.(VIface)
+	if !ok || iv.Dyn == nil || !strings.Contains(typeStr(iv.Dyn), "bigEndian") {
+		oos("binary.Read/Write with a byte order other than BigEndian")
+	}
+}
+
+// flatSize: encoded size in bytes of a fixed-size type (ints, arrays of them); ok=false otherwise.
+func flatSize(t types.Type) (int, bool) {
+	if w, _, ok := intInfo(t); ok {
+		return w / 8, true
+	}
+	if a, ok := t.Underlying().(*types.Array); ok {
+		es, ok2 := flatSize(a.Elem())
+		return es * int(a.Len()), ok2
+	}
+	return 0, false
+}
+
+// decodeFlat builds a value of type t from bytes read at off.
+func decodeFlat(mem *ByteMem, off *Term, t types.Type) Value {
+	if w, _, ok := intInfo(t); ok {
+		var r *Term
+		for k := 0; k < w/8; k++ {
+			b := mem.Read(Add(off, Const(64, uint64(k))))
+			if r == nil {
+				r = b
+			} else {
+				r = Concat(r, b)
+			}
+		}
+		return VInt{r}
+	}
+	a := t.Underlying().(*types.Array)
+	es, _ := flatSize(a.Elem())
+	e := make([]Value, a.Len())
+	for i := range e {
+		e[i] = decodeFlat(mem, Add(off, Const(64, uint64(i*es))), a.Elem())
+	}
+	return VArray{e}
+}
+
+func encodeFlat(v Value, t types.Type, out *[]*Term) {
+	if w, _, ok := intInfo(t); ok {
+		x := v.(VInt).T
+		for k := w/8 - 1; k >= 0; k-- {
+			*out = append(*out, Extract(k*8+7, k*8, x))
+		}
+		return
+	}
+	a := t.Underlying().(*types.Array)
+	for _, e := range v.(VArray).E {
+		encodeFlat(e, a.Elem(), out)
+	}
+}
+
+// binary.Read(buf, BigEndian, p): needs sizeof(*p) bytes (len(*p) for a byte slice). If the buffer holds
+// that many: decodes big-endian into *p (slices are filled in place), consumes them, err == nil.
+// Otherwise err != nil, *p unchanged, the buffer's remaining bytes are consumed. Never panics for non-nil p.
+func binaryRead(ex *Exec, st *State, fr *Frame, c ssa.Instruction, fn *ssa.Function, args []Value) []Outcome {
+	bp, bt := bufArg(ex, st, args[0])
+	checkBigEndian(args[1])
+	dv, ok := args[2].(VIface)
+	if !ok || dv.Dyn == nil {
+		oos("binary.Read into a value of unknown dynamic type")
+	}
+	pt, ok := dv.Dyn.Underlying().(*types.Pointer)
+	if !ok {
+		oos("binary.Read into non-pointer %s", typeStr(dv.Dyn))
+	}
+	target := ex.checkNonNil(st, fr, dv.Val.(VPtr), c)
+	if st.dead {
+		return nil
+	}
+	bv := st.loadPtr(bp).(VStruct)
+	bi, oi := bufferFieldIdx(bt, "buf"), bufferFieldIdx(bt, "off")
+	buf := bv.F[bi].(VSlice)
+	off := bv.F[oi].(VInt).T
+	avail := Sub(buf.Len, off)
+	var mem *ByteMem = bmZeros
+	if buf.Obj != 0 {
+		mem = st.heap[buf.Obj].Mem
+	}
+	var size *Term
+	et := pt.Elem()
+	var dst VSlice
+	isSlice := false
+	if fs, ok := flatSize(et); ok {
+		size = Const(64, uint64(fs))
+	} else if isByteSlice(et) {
+		dst = st.loadPtr(target).(VSlice)
+		size = dst.Len
+		isSlice = true
+	} else {
+		oos("binary.Read into %s is not modelled", typeStr(et))
+	}
+	setOff := func(s *State, no *Term) {
+		cur := s.loadPtr(bp).(VStruct)
+		f := append([]Value{}, cur.F...)
+		f[oi] = VInt{no}
+		ex.noteWrite(s, nil, bp, bt)
+		s.storePtr(bp, VStruct{f})
+	}
+	var outs []Outcome
+	okc := ULe(size, avail)
+	if !okc.IsFalse() {
+		s := st.clone()
+		s.assume(okc)
+		if isSlice {
+			if dst.Obj != 0 {
+				o := *s.heap[dst.Obj]
+				o.Mem = o.Mem.Copy(dst.Off, mem, Add(buf.Off, off), size)
+				s.heap[dst.Obj] = &o
+				ex.noteObjWrite(s, dst.Obj)
+			}
+		} else {
+			ex.noteWrite(s, nil, target, et)
+			s.storePtr(target, decodeFlat(mem, Add(buf.Off, off), et))
+		}
+		setOff(s, Add(off, size))
+		outs = append(outs, Outcome{s, []Value{nilIface}})
+	}
+	if !okc.IsTrue() {
+		s := st.clone()
+		s.assume(Not(okc))
+		setOff(s, buf.Len)
+		outs = append(outs, Outcome{s, []Value{nonNilErr()}})
+	}
+	return outs
+}
+
+// binary.Write(buf, BigEndian, v): appends the big-endian bytes of v (fixed-size value or byte slice); err == nil.
+func binaryWrite(ex *Exec, st *State, fr *Frame, c ssa.Instruction, fn *ssa.Function, args []Value) []Outcome {
+	bp, bt := bufArg(ex, st, args[0])
+	checkBigEndian(args[1])
+	dv, ok := args[2].(VIface)
+	if !ok || dv.Dyn == nil {
+		oos("binary.Write of a value of unknown dynamic type")
+	}
+	t := dv.Dyn
+	v := dv.Val
+	if pt, ok := t.Underlying().(*types.Pointer); ok {
+		p := ex.checkNonNil(st, fr, v.(VPtr), c)
+		if st.dead {
+			return nil
+		}
+		v = ex.unref(st, st.loadPtr(p), pt.Elem())
+		t = pt.Elem()
+	}
+	if _, ok := flatSize(t); ok {
+		var bs []*Term
+		encodeFlat(v, t, &bs)
+		bufAppend(ex, st, bp, mkBytes(st, bs, "binary.Write"), bt)
+		return []Outcome{{st, []Value{nilIface}}}
+	}
+	if isByteSlice(t) {
+		bufAppend(ex, st, bp, v, bt)
+		return []Outcome{{st, []Value{nilIface}}}
+	}
+	oos("binary.Write of %s is not modelled", typeStr(t))
+	return nil
+}
+
+// (*bytes.Buffer).Read(p): copies min(len(p), Len()) bytes, consumes them; io.EOF only when the buffer is empty and len(p) > 0.
+func bufRead(ex *Exec, st *State, fr *Frame, c ssa.Instruction, fn *ssa.Function, args []Value) []Outcome {
+	bp := ex.checkNonNil(st, fr, args[0].(VPtr), c)
+	if st.dead {
+		return nil
+	}
+	bt := bufType(fn)
+	bv := st.loadPtr(bp).(VStruct)
+	bi, oi := bufferFieldIdx(bt, "buf"), bufferFieldIdx(bt, "off")
+	buf := bv.F[bi].(VSlice)
+	off := bv.F[oi].(VInt).T
+	avail := Sub(buf.Len, off)
+	dst := args[1].(VSlice)
+	n := Ite(ULt(dst.Len, avail), dst.Len, avail)
+	var mem *ByteMem = bmZeros
+	if buf.Obj != 0 {
+		mem = st.heap[buf.Obj].Mem
+	}
+	if dst.Obj != 0 {
+		o := *st.heap[dst.Obj]
+		o.Mem = o.Mem.Copy(dst.Off, mem, Add(buf.Off, off), n)
+		st.heap[dst.Obj] = &o
+		ex.noteObjWrite(st, dst.Obj)
+	}
+	f := append([]Value{}, bv.F...)
+	f[oi] = VInt{Add(off, n)}
+	ex.noteWrite(st, nil, bp, bt)
+	st.storePtr(bp, VStruct{f})
+	eof := And(Eq(avail, Const(64, 0)), Ne(dst.Len, Const(64, 0)))
+	var outs []Outcome
+	if !eof.IsTrue() {
+		s := st.clone()
+		s.assume(Not(eof))
+		outs = append(outs, Outcome{s, []Value{VInt{n}, nilIface}})
+	}
+	if !eof.IsFalse() {
+		s := st.clone()
+		s.assume(eof)
+		outs = append(outs, Outcome{s, []Value{VInt{n}, nonNilErr()}})
+	}
+	return outs
+}
